@@ -116,16 +116,30 @@ func (a *Amqp) consumeAMQP() {
 	for {
 		select {
 		case m := <-a.delivery:
-			// note that we don't support lines longer than 4096B. that seems very reasonable..
 			r := bufio.NewReaderSize(bytes.NewReader(m.Body), 4096)
+			// a line that does not fit the reader's buffer comes in several slices (isPrefix):
+			// put them together again, so that every line is dispatched whole and once
+			var long []byte
 			for {
-				buf, _, err := r.ReadLine()
+				buf, isPrefix, err := r.ReadLine()
 
 				if err != nil {
 					if io.EOF != err {
 						log.Error(err.Error())
 					}
+					if len(long) > 0 {
+						a.dispatcher.Dispatch(long)
+					}
 					break
+				}
+
+				if isPrefix || len(long) > 0 {
+					long = append(long, buf...)
+					if isPrefix {
+						continue
+					}
+					buf = long
+					long = nil
 				}
 
 				a.dispatcher.Dispatch(buf)
